@@ -263,6 +263,22 @@ LONE_WRAPS = ['(%s)', '((%s))', '( %s )', 'case when a\nthen (%s)\nelse 2\nend',
               'if a then\n%s\nend if', 'for i in (%s) loop\nx\nend loop', "x\nwhere\n(%s)", '(%s)\nas\ny', '(%s)::int', 'a\n:=\n(%s)']
 
 
+def comment_chunk_cases(ctx):
+    """chunks of a script that hold nothing but comments (a trailing comment line, a comment block between two statements, a header): what a filter does
+    "between statements" must treat them like any other chunk — the formatted script has the same significant tokens AND the same number of statements"""
+    out = []
+    cms = ['-- end of script', '# note', '/* block */', '--+ hint', '-- a\n-- b', '/* a */ /* b */', '/* multi\n line */']
+    stmts = ['select a from b', 'select 1', 'update t set a = 1 where b = 2', 'create table t (a int)']
+    for cm in cms:
+        for s1 in stmts:
+            for text in (s1 + ';\n' + cm + '\n', s1 + ';\n' + cm, s1 + ';\n\n' + cm + '\n\n' + 'select 2;', cm + '\n' + s1 + ';\n' + cm + '\n', s1 + '; ' + cm + '\n' + 'select 2',
+                         s1 + ';\n' + cm + '\n;\nselect 2', s1 + ';\n' + cm + '\n' + cm + '\nselect 2;\n' + cm):
+                for o in OPTSETS:
+                    out.append((text, o))
+    ctx.count('comment-only chunks', len(out))
+    return out
+
+
 def lone_group_cases(ctx):
     out = []
     for inner in LONE_INNER:
@@ -287,7 +303,7 @@ def run(ctx):
         for k in opts:
             ctx.count('opt:' + k)
         oracle(ctx, text, opts)
-    sweeps = multiline_cases(ctx) + neighbour_cases(ctx) + gap_cases(ctx) + separator_cases(ctx) + call_cases(ctx) + lone_group_cases(ctx)
+    sweeps = multiline_cases(ctx) + neighbour_cases(ctx) + gap_cases(ctx) + separator_cases(ctx) + call_cases(ctx) + lone_group_cases(ctx) + comment_chunk_cases(ctx)
     # statements that are large in one dimension (the property has no size bound)
     sweeps += [(t, ctx.rng.choice(OPTSETS)) for t in gen.scale_texts(ctx.rng) if not (ctx.quick() and len(t) > 12000)]
     for text, opts in sweeps:
